@@ -1171,6 +1171,9 @@ def name_to_class_map(name):
         "h": Hadamard,
         "s": Phase,
         "p": Phase,
+        "sdg": PhaseDagger,
+        "id": Identity,
+        "measure z": MeasurementZ,
         "cz": CZ,
         "classical x": ClassicalCNOT,
         "classical z": ClassicalCZ,
@@ -1196,10 +1199,13 @@ def class_to_name_mapping(class_op):
         SigmaZ: "z",
         Hadamard: "h",
         Phase: "s",
+        PhaseDagger: "sdg",
+        Identity: "id",
+        MeasurementZ: "measure z",
         CZ: "cz",
         ClassicalCNOT: "classical x",
         ClassicalCZ: "classical z",
-        MeasurementCNOTandReset: "measurement-controlled x and reset",
+        MeasurementCNOTandReset: "classical reset x",
     }
     if class_op in mapping:
         return mapping[class_op]
